@@ -89,12 +89,15 @@ fn run_one(run: u64, rng: &mut StdRng, rep: &mut Report, trace_out: &mut Vec<Str
             let mut writers: Vec<Option<OwnedFd>> = vec![];
             let mut handles = vec![];
             let mut tokens: Vec<Option<CancelToken>> = vec![];
+            let shared_token = CancelToken::new();
+            let mut shared_fired = false;
             for (i, k) in kinds2.iter().enumerate() {
                 let (r, w) = pipe_nonblock();
                 writers.push(Some(w));
                 let rfd = SharedFd::new(r);
                 let out = out2.clone();
-                let token = if *k == Kind::Token { Some(CancelToken::new()) } else { None };
+                // all token-route tasks of a run share ONE token: firing it must cancel every one of them
+                let token = if *k == Kind::Token { Some(shared_token.clone()) } else { None };
                 tokens.push(token.clone());
                 let k = *k;
                 let h = compio_runtime::spawn(async move {
@@ -174,8 +177,10 @@ fn run_one(run: u64, rng: &mut StdRng, rep: &mut Report, trace_out: &mut Vec<Str
                         assert_eq!(r, 4);
                     }
                     Kind::Token => {
-                        if let Some(t) = tokens[i].take() {
-                            t.cancel();
+                        tokens[i].take();
+                        if !shared_fired {
+                            shared_fired = true;
+                            shared_token.clone().cancel();
                         }
                     }
                     Kind::Dropped => {
